@@ -1,6 +1,7 @@
 package main
 
 import (
+	"os"
 	"errors"
 	"fmt"
 	"io"
@@ -32,6 +33,7 @@ type fakeWS struct {
 	id        int
 	frames    []string // "<type>:<hex>"
 	writeErr  bool     // the next WriteMessage fails
+	writeErrKind string // f: a transport error, c: websocket.ErrCloseSent, n: net.ErrClosed, t: a timeout
 	closes    int
 	reads     chan readRes
 	closeH    func(code int, text string) error
@@ -85,6 +87,14 @@ func (f *fakeWS) WriteMessage(mt int, data []byte) error {
 		return net.ErrClosed
 	}
 	if fail {
+		switch f.writeErrKind {
+		case "c":
+			return websocket.ErrCloseSent
+		case "n":
+			return net.ErrClosed
+		case "t":
+			return &net.OpError{Op: "write", Err: os.ErrDeadlineExceeded}
+		}
 		return errors.New("write failed")
 	}
 	return nil
@@ -334,7 +344,8 @@ func runWSeq(args []string) ([]string, string) {
 			case "SND", "RAW":
 				if cn := r.cur(); cn != nil {
 					cn.mu.Lock()
-					cn.writeErr = arg(1) == "f"
+					cn.writeErr = arg(1) != "-"
+					cn.writeErrKind = arg(1)
 					cn.mu.Unlock()
 				}
 				var err error
@@ -395,9 +406,9 @@ func genWsOp(r *Rng) string {
 		if r.Chance(20) {
 			sz = []int{125, 126, 4095, 4096, 4097, 5000, 65535, 65536, 70000}[r.Intn(9)]
 		}
-		return fmt.Sprintf("RAW(%s;%s)", hx(r.Bytes(sz)), []string{"-", "-", "-", "f"}[r.Intn(4)])
+		return fmt.Sprintf("RAW(%s;%s)", hx(r.Bytes(sz)), []string{"-", "-", "-", "-", "-", "f", "c", "n", "t"}[r.Intn(9)])
 	default:
-		return fmt.Sprintf("SND(%s;%s)", genSendTokNoRaw(r), []string{"-", "-", "-", "f"}[r.Intn(4)])
+		return fmt.Sprintf("SND(%s;%s)", genSendTokNoRaw(r), []string{"-", "-", "-", "-", "-", "f", "c", "n", "t"}[r.Intn(9)])
 	}
 }
 
